@@ -348,11 +348,11 @@ func (c *Client) Subscribe(topic string, fn EventHandler, options wamp.Dict) err
 	}
 	id := c.sess.IDGen.Next()
 	c.expectReply(id)
-	c.sess.Send() <- &wamp.Subscribe{
+	c.send(&wamp.Subscribe{
 		Request: id,
 		Options: options,
 		Topic:   wamp.URI(topic),
-	}
+	})
 
 	// Wait to receive SUBSCRIBED message.
 	msg, err := c.waitForReply(id)
@@ -419,10 +419,10 @@ func (c *Client) Unsubscribe(topic string) error {
 
 	id := c.sess.IDGen.Next()
 	c.expectReply(id)
-	c.sess.Send() <- &wamp.Unsubscribe{
+	c.send(&wamp.Unsubscribe{
 		Request:      id,
 		Subscription: subID,
-	}
+	})
 
 	// Wait to receive UNSUBSCRIBED message.
 	msg, err := c.waitForReply(id)
@@ -545,9 +545,12 @@ func (c *Client) Publish(topic string, options wamp.Dict, args wamp.List, kwargs
 	if pubAck {
 		c.expectReply(id)
 	}
-	c.sess.Send() <- message
+	sent := c.send(message)
 
 	if !pubAck {
+		if !sent {
+			return ErrNotConn
+		}
 		return nil
 	}
 
@@ -609,11 +612,11 @@ func (c *Client) Register(procedure string, fn InvocationHandler, options wamp.D
 	if options == nil {
 		options = wamp.Dict{}
 	}
-	c.sess.Send() <- &wamp.Register{
+	c.send(&wamp.Register{
 		Request:   id,
 		Options:   options,
 		Procedure: wamp.URI(procedure),
-	}
+	})
 
 	// Wait to receive REGISTERED message.
 	msg, err := c.waitForReply(id)
@@ -672,10 +675,10 @@ func (c *Client) Unregister(procedure string) error {
 
 	id := c.sess.IDGen.Next()
 	c.expectReply(id)
-	c.sess.Send() <- &wamp.Unregister{
+	c.send(&wamp.Unregister{
 		Request:      id,
 		Registration: procID,
-	}
+	})
 
 	// Wait to receive UNREGISTERED message.
 	msg, err := c.waitForReply(id)
@@ -807,7 +810,7 @@ func (c *Client) Call(ctx context.Context, procedure string, options wamp.Dict, 
 		return nil, err
 	}
 
-	c.sess.Send() <- message
+	c.send(message)
 
 	// Wait to receive RESULT message.
 	msg, err := c.waitForReplyWithCancel(ctx, id, procedure, progChan)
@@ -828,7 +831,7 @@ func (c *Client) Call(ctx context.Context, procedure string, options wamp.Dict, 
 		abortMsg, err := c.prepareCallResultMessage(msg)
 		if err != nil {
 			if abortMsg != nil {
-				c.sess.Send() <- abortMsg
+				c.send(abortMsg)
 				c.sess.EndRecv(nil) // stop the client; Close() closes the peer
 			}
 
@@ -906,7 +909,7 @@ func (c *Client) CallProgressive(ctx context.Context, procedure string, sendProg
 		return nil, err
 	}
 
-	c.sess.Send() <- message
+	c.send(message)
 
 	callInProgress, _ := options[wamp.OptProgress].(bool)
 
@@ -918,10 +921,10 @@ func (c *Client) CallProgressive(ctx context.Context, procedure string, sendProg
 				cliOptions, args, kwargs, err := sendProg(ctx)
 
 				if err != nil {
-					c.sess.Send() <- &wamp.Cancel{
+					c.send(&wamp.Cancel{
 						Request: id,
 						Options: wamp.SetOption(nil, wamp.OptMode, wamp.CancelModeKillNoWait),
-					}
+					})
 					return
 				}
 
@@ -945,14 +948,16 @@ func (c *Client) CallProgressive(ctx context.Context, procedure string, sendProg
 				}
 
 				if err := c.prepareCallPayloadMessage(message, options, args, kwargs); err != nil {
-					c.sess.Send() <- &wamp.Cancel{
+					c.send(&wamp.Cancel{
 						Request: id,
 						Options: wamp.SetOption(nil, wamp.OptMode, wamp.CancelModeKillNoWait),
-					}
+					})
 					return
 				}
 
-				c.sess.Send() <- message
+				if !c.send(message) {
+					return
+				}
 			}
 		}()
 	}
@@ -976,7 +981,7 @@ func (c *Client) CallProgressive(ctx context.Context, procedure string, sendProg
 		abortMsg, err := c.prepareCallResultMessage(msg)
 		if err != nil {
 			if abortMsg != nil {
-				c.sess.Send() <- abortMsg
+				c.send(abortMsg)
 				c.sess.EndRecv(nil) // stop the client; Close() closes the peer
 			}
 
@@ -1329,6 +1334,18 @@ func unexpectedMsgError(msg wamp.Message, expected wamp.MessageType) error {
 	return errors.New(s)
 }
 
+// send hands a message to the transport, and reports whether it could. It
+// gives up when the client is done: nothing drains the transport's queue any
+// more then, and a caller that is waiting for the reply finds out the same way.
+func (c *Client) send(msg wamp.Message) bool {
+	select {
+	case c.sess.Send() <- msg:
+		return true
+	case <-c.Done():
+		return false
+	}
+}
+
 func (c *Client) expectReply(id wamp.ID) {
 	wait := &replyWaiter{
 		msgs: make(chan wamp.Message),
@@ -1437,10 +1454,10 @@ CollectResults:
 			c.log.Printf("Call to %q canceled by caller (mode=%s): %s",
 				procedure, c.cancelMode, err)
 		}
-		c.sess.Send() <- &wamp.Cancel{
+		c.send(&wamp.Cancel{
 			Request: id,
 			Options: wamp.SetOption(nil, wamp.OptMode, c.cancelMode),
-		}
+		})
 		// Wait for the ERROR from the dealer.
 		timer := time.NewTimer(c.responseTimeout)
 	waitCancel:
